@@ -71,13 +71,20 @@ def roundtrip(s, layout, batch, pair=None):
         return res
     try:
         X = torch.tensor(batch, dtype=torch.float32)
-        if layout == "2d" and len(batch) % 2 == 1:
+        if layout == "2d" and len(batch) % 3 == 1:
             from .core import noncontiguous
-            X = noncontiguous(X)          # odd-sized batches arrive as a non-contiguous strided view of a larger buffer
+            X = noncontiguous(X)          # some batches arrive as a non-contiguous strided view of a larger buffer
+        elif layout == "2d" and len(batch) % 3 == 2:
+            from .core import transposed_view
+            X = transposed_view(X)        # ... or as the dense transposed view of a bit-major buffer
         if layout == "3d":          # two leading batch dimensions: the symbol axis is still the last one
             X = X.reshape((2, len(batch) // 2, -1) if len(batch) % 2 == 0 else (1, len(batch), -1))
         y = m(X)
         out = d(y)
+        if s.kind == "memoryless":
+            out2 = d(y)                   # the received tensor demodulated a second time gives the same bits (it is the caller's, not a workspace)
+            if out2.shape != out.shape or not torch.equal(out2, out):
+                out = out2
         out = out.reshape(len(batch), -1)
         for i, bits in enumerate(batch):
             res.append((bits, modem.out_bits(out[i]), int(y.shape[-1]), False, ""))
